@@ -401,7 +401,17 @@ func (e *Enc) assumeWF(guard *Term, t types.Type, term *Term) {
 	// values read from the entry heap (or parameters) refer to objects that existed at entry: refs >= 0
 	if isEntryRead(term) {
 		if c := e.entryRefs(t, term, 0); !e.tb.isTrue(c) {
-			e.assume(e.tb.True(), c)
+			// closedness of the entry heap holds for objects that existed at entry: a field of an object that a callee
+			// allocated lives in the same (unmodified) register at a negative reference and may hold anything
+			g := e.tb.True()
+			for x := term; len(x.args) > 0; x = x.args[0] {
+				if x.op == "select" && len(x.args) == 2 && x.args[1].sort == RefSort {
+					if _, lit := x.args[1].intLit(); !lit {
+						g = e.tb.And(g, e.tb.Ge(x.args[1], e.tb.Int(0)))
+					}
+				}
+			}
+			e.assume(g, c)
 		}
 	} else if refBearing(t, 0) {
 		// values read from an unknown (havocked) part of the heap refer to objects that existed when the unknown was
